@@ -1,7 +1,6 @@
 open Model
 open Main_common
 
-let bytes_of_string (s : string) : n list = List.init (String.length s) (fun i -> n_of_int (Char.code s.[i]))
 let custom = [("VERBOSE", 50); ("NOTICE", 450); ("ABOVE", 1500)]
 let registry = builtin_levels @ List.map (fun (n, c) -> (bytes_of_string n, z_of_int c)) custom
 
